@@ -1,4 +1,5 @@
 import LunaVerif.Lemmas.C07StreamMain
+import LunaVerif.Model.Usb2.ControlCycSys
 import LunaVerif.Props.C27
 import LunaVerif.Props.C09
 /-!
@@ -107,8 +108,6 @@ def serReqInputs (L : Nat) (data : List Nat) : List Bool → List SerIn
   | r :: rs => ⟨true, 0, L, r, data⟩ :: rs.map (fun r => ⟨false, 0, L, r, data⟩)
 
 def beatOfSer (o : StreamGen.SerOut) : Desc.Beat := ⟨o.valid, o.first, o.last, o.payload, false⟩
-
-def txCfg : StreamGen.SerConfig := ⟨2, 2⟩
 
 section
 open LunaVerif.StreamGen
@@ -298,6 +297,32 @@ theorem block_handler_contract (c : DevConfig) (hwf : wellFormed (collOf c.descr
   refine ⟨lat, h1, h2, ?_⟩
   rw [hv'] at h3
   rw [h3, descriptorPacket_spec c v l p (by omega) hl hp, lookup_collOf]
+
+open LunaVerif.Desc in
+/-- The same for `GetDescriptorHandlerDistributed` (C09 `dist_packet_exact`; its generators cannot be asked for
+`start_position = wLength`, so `p < l`): `respTrace lat (descResp (descriptorPacket …))` with `lat ≤ 2` -- a missing
+descriptor is STALLed in the start cycle itself (`lat = 0`: `GapsS.stallNow` in the expansion). -/
+theorem dist_handler_contract (c : DevConfig)
+    (hm : c.maxPacket = 8 ∨ c.maxPacket = 16 ∨ c.maxPacket = 32 ∨ c.maxPacket = 64)
+    (hwf : ∀ d ∈ collOf c.descriptors, d.idx < 256)
+    (s0 : Dist.State) (h0 : Dist.Quiescent (distOf (collOf c.descriptors) c.maxPacket) s0)
+    (v l p : Nat) (hv : v < 65536) (hl : l < 65536)
+    (hp : ∀ d, lookupDescriptor c.descriptors (v / 256 % 256) (v % 256) = some d →
+      p ≤ min l d.length ∧ d.length < 2 ^ c.posBits ∧ p < l)
+    (rs : List Bool) :
+    ∃ lat, lat ≤ 2 ∧
+      Dist.run (distOf (collOf c.descriptors) c.maxPacket) s0 (Dist.reqInputs v l p rs)
+        = respTrace lat (descResp (descriptorPacket c v l p)) rs := by
+  have hidx : v % 256 < 256 := Nat.mod_lt _ (by decide)
+  have hv' : v / 256 % 256 * 256 + v % 256 = v := by omega
+  obtain ⟨lat, h1, h3⟩ := dist_packet_exact (collOf c.descriptors) c.maxPacket s0 (v / 256 % 256) (v % 256) l p rs
+    hm hwf hidx hl h0 (by
+      intro d hd
+      rw [← lookup_collOf] at hd
+      exact ⟨(hp d hd).1, (hp d hd).2.2⟩)
+  refine ⟨lat, h1, ?_⟩
+  rw [hv'] at h3
+  rw [h3, descriptorPacket_spec c v l p (by omega) hl (fun d hd => ⟨(hp d hd).1, (hp d hd).2.1⟩), lookup_collOf]
 
 /-- The beats of the expansion's stream window (`streamWindow`: `Desc.delayed g.lat (Desc.bodyTrace R)` over the
 `tx.ready` values after the start cycle) are the contract's `respTrace (g.lat + 1) R` from its second cycle on; its
